@@ -150,6 +150,7 @@ class Ref8(c07.Ref):
         super().__init__(list(lines), rows)
         self.regs = {}
         self.traffic = []         # (register name, text, linewise) of every reg_put, for the register model
+        self.caret_past_eol = False   # True = mirror KF-CARET-PAST-EOL (only used by the classifier of that finding)
 
     # -- buffer helpers
     def reindex(self):
@@ -239,6 +240,8 @@ class Ref8(c07.Ref):
             if t is None:
                 return None
             r2, o2 = t
+            if mkey == '^' and o2 is not None and not self.caret_past_eol:
+                o2 = min(o2, self.eol(r2))      # the target of ^ is a position of the line, at most its terminator
         lnmode = o2 is None
         if lnmode:
             o1, o2 = 0, self.eol(r2)
@@ -619,8 +622,9 @@ def render(L, r, o, regs):
     return out, shown
 
 
-def expected(text, rows, prog):
+def expected(text, rows, prog, caret_past_eol=False):
     ref = Ref8(c07.lines_of(text), rows - 1)
+    ref.caret_past_eol = caret_past_eol
     ref.run8(prog)
     out, regs = render(ref.L, ref.r, ref.o, ref.regs)
     return out, regs, ref
@@ -957,15 +961,28 @@ def check_case(exe, c):
     except Exception as e:          # a bug of the reference is a broken check, not a finding
         import traceback
         return {'what': 'reference raised %r' % e, 'trace': traceback.format_exc()[-800:], 'refbug': True}, None
+    bad = None
     if out != want_out:
         rest_w, rest_o = want_out.replace(MARK, ''), out.replace(MARK, '')
         what = 'text after the program differs from the reference' if rest_w != rest_o else 'cursor after the program differs from the reference'
-        return {'what': what, 'expected': want_out, 'observed': out}, ref
-    for nm in REVEAL:
-        if regs[nm] != want_regs[nm]:
-            return {'what': 'register %s differs from the reference (revealed by putting it after X of "XY")' % (nm or 'unnamed'),
-                    'expected': want_regs[nm], 'observed': regs[nm]}, ref
-    return None, ref
+        bad = {'what': what, 'expected': want_out, 'observed': out}
+    else:
+        for nm in REVEAL:
+            if regs[nm] != want_regs[nm]:
+                bad = {'what': 'register %s differs from the reference (revealed by putting it after X of "XY")' % (nm or 'unnamed'),
+                       'expected': want_regs[nm], 'observed': regs[nm]}
+                break
+    if bad and any(c[0] in ('op', 'pipe') and '^' in (c[5] if c[0] == 'op' else c[3]) for c in prog):
+        # KF-CARET-PAST-EOL: an operator whose target is ^ on a line without a non-blank gets the position AFTER the
+        # terminator.  Recognised only if mirroring exactly that (and nothing else) explains the whole observation.
+        try:
+            q_out, q_regs, q_ref = expected(text, rows, prog, caret_past_eol=True)
+            if q_out == out and all(q_regs[nm] == regs[nm] for nm in REVEAL):
+                bad['kf'] = 'KF-CARET-PAST-EOL'
+                return bad, q_ref
+        except Exception:
+            pass
+    return bad, ref
 
 
 def clean(c):
@@ -1062,11 +1079,16 @@ def run(ctx):
             if bad.get('refbug'):
                 res.disagree(dict(bad, input=inp))
                 continue
+            if bad.get('kf'):
+                kf = bad.pop('kf')
+                bad['input'] = inp
+                res.violation(bad, kf=kf)
+                continue
             if nviol < 3:
                 nviol += 1
                 small = shrink_case(exe, c)
                 bad2, _ = check_case(exe, small)
-                if bad2 and not bad2.get('refbug'):
+                if bad2 and not bad2.get('refbug') and not bad2.get('kf'):
                     bad, inp = bad2, {'text': small['text'], 'rows': small['rows'], 'prog': small['prog'],
                                       'keys': keys_of(small['prog']).decode('utf-8', 'replace')}
             bad['input'] = inp
@@ -1078,14 +1100,14 @@ def run(ctx):
 def shrink_case(exe, c):
     def fails_prog(p):
         bad, _ = check_case(exe, dict(c, prog=p))
-        return bool(bad) and not bad.get('refbug')
+        return bool(bad) and not bad.get('refbug') and not bad.get('kf')
     prog = vlib.shrink(c['prog'], fails_prog, max_steps=60)
     c = dict(c, prog=prog)
     ls = c['text'].split('\n')
 
     def fails_text(l):
         bad, _ = check_case(exe, dict(c, text='\n'.join(l)))
-        return bool(bad) and not bad.get('refbug')
+        return bool(bad) and not bad.get('refbug') and not bad.get('kf')
     if len(ls) > 2:
         c = dict(c, text='\n'.join(vlib.shrink(ls, fails_text, max_steps=40)))
     return c
